@@ -113,6 +113,156 @@ class Function:
     def all_calls(self):
         return [nd for nd in self.nodes if nd["k"] in CALLS or nd["k"] in CTORS]
 
+    # --- locals read through their definitions -------------------------------
+    @staticmethod
+    def _root(t):
+        """The object a term designates storage in: a variable, a member of *this, a global; a dereference starts a new
+        object (the pointee), which is only the same object as another dereference of the same root."""
+        deref = False
+        while isinstance(t, tuple) and t:
+            if t[0] in ("mem", "idx"):
+                if t[0] == "mem" and t[1] == ("this",):
+                    return ("deref", ("this", t[2])) if deref else ("this", t[2])
+                t = t[1]
+            elif t[0] == "un" and t[1] == "*":
+                deref = True
+                t = t[2]
+            elif t[0] == "un" and t[1] == "&":
+                t = t[2]
+            elif t[0] in ("var", "global"):
+                return ("deref", t) if deref else t
+            elif t[0] == "this":
+                return ("deref", t) if deref else t
+            else:
+                return None
+        return None
+
+    def _roots_mentioned(self, t, acc=None, deref=False):
+        acc = set() if acc is None else acc
+        if not isinstance(t, tuple) or not t:
+            return acc
+        if t[0] in ("var", "global"):
+            acc.add(t)
+        elif t[0] == "mem" and t[1] == ("this",):
+            acc.add(("this", t[2]))
+        elif t[0] == "this":
+            acc.add(("this",))
+        elif t[0] == "un" and t[1] == "*":
+            r = self._root(t)
+            if r is not None:
+                acc.add(r)
+        for x in t[1:]:
+            if isinstance(x, tuple):
+                self._roots_mentioned(x, acc)
+        return acc
+
+    def local_definitions(self):
+        """Locals that name a value: declared with an initialiser, never assigned again (or const), never handed out by
+        address or non-const reference, and such that nothing the initialiser reads can change while the local is in scope
+        (no assignment to, non-const member call on, or non-const reference to any object it mentions after the declaration
+        inside the declaring block). Such a local *is* its initialiser: {var term: initialiser term}."""
+        cache = getattr(self, "_local_defs", None)
+        kc = bool(getattr(self, "keep_casts", False))
+        if cache is not None and kc in cache:
+            return cache[kc]
+        pm = self.parent_map()
+        stores = []      # (node id, root)
+        for nd in self.nodes:
+            k = nd["k"]
+            if k in ("BinaryOperator", "CompoundAssignOperator") and nd.get("op", "").endswith("=") and nd["op"] not in ("==", "!=", "<=", ">="):
+                ks = self.kids(nd["id"])
+                if ks:
+                    stores.append((nd["id"], self._root(self.term(ks[0]))))
+            elif k == "UnaryOperator" and nd.get("op") in ("++", "--", "&"):
+                ks = self.kids(nd["id"])
+                if ks:
+                    r = self._root(self.term(ks[0]))
+                    if nd.get("op") == "&":
+                        # address handed out: a store only if it may be written through (not a pointer to const)
+                        if "const" in (nd.get("t") or "").split("*")[0]:
+                            continue
+                    stores.append((nd["id"], r))
+            elif k in CALLS or k in CTORS:
+                ps = nd.get("params") or []
+                args = nd.get("args", [])
+                if k == "CXXOperatorCallExpr" and len(args) == len(ps) + 1:
+                    # member operator: the first argument is the object
+                    if not nd.get("mconst", True) and not ((nd.get("mrec") or "").startswith("std::") and nd.get("op") in ("[]", "*", "->")):
+                        # (element access on a standard container or smart pointer leaves the object as it is; a write
+                        # through the returned reference is an assignment and is seen as such)
+                        stores.append((nd["id"], self._root(self.term(args[0]))))
+                    args = args[1:]
+                for a, p in zip(args, ps):
+                    if (p.get("ref") and not p.get("const_ref")) or (p.get("ptr") and "const" not in (p.get("t") or "").split("*")[0]):
+                        stores.append((nd["id"], self._root(self.term(a))))
+                if k == "CXXMemberCallExpr" and "obj" in nd and not nd.get("mconst") and not nd.get("mstatic") and not (
+                        (nd.get("mrec") or "").startswith("std::") and nd.get("fname") in ("begin", "end", "data", "at", "front", "back", "get", "rbegin", "rend")):
+                    ot = self.term(nd["obj"])
+                    r = self._root(ot)
+                    if ot == ("this",):
+                        r = ("this",)
+                    stores.append((nd["id"], r))
+            elif k == "CXXForRangeStmt":
+                pass
+        defs = {}
+        for nd in self.nodes:
+            if nd["k"] != "DeclStmt":
+                continue
+            scope = pm.get(nd["id"])
+            if scope is None:
+                continue
+            inside = None
+            for d in nd.get("decls", []):
+                if "init" not in d or "d" not in d or d.get("static"):
+                    continue
+                v = ("var", d["n"], d["d"])
+                t = self.term(d["init"])
+                if t[0] in ("?", "lambda", "ctor", "str") or (t[0] == "call" and not d.get("is_const") and not d.get("is_ref")):
+                    continue
+                if inside is None:
+                    inside = set(self.subtree(scope, into_lambdas=True))
+                roots = self._roots_mentioned(t)
+                this_members = any(r[0] == "this" and len(r) == 2 for r in roots)
+                okv = True
+                for sid, r in stores:
+                    if r is None:
+                        continue
+                    if r == v and not d.get("is_ref"):
+                        okv = False
+                        break
+                    if sid in inside and sid > nd["id"]:
+                        if r in roots or (r == ("this",) and this_members) or (r[0] == "this" and len(r) == 2 and ("this",) in roots):
+                            okv = False
+                            break
+                if okv:
+                    defs[v] = t
+        if cache is None:
+            cache = self._local_defs = {}
+        cache[kc] = defs
+        return defs
+
+    def xterm(self, i):
+        """term(i) with value-naming locals replaced by what they name (to a fix-point)."""
+        t = self.term(i)
+        return self.through_locals(t)
+
+    def through_locals(self, t):
+        defs = self.local_definitions()
+        for _ in range(6):
+            n = _subst_vars(t, defs)
+            if n == t:
+                break
+            t = n
+        return t
+
+    def _address_taken(self, i):
+        """`&x` (through parentheses): the object is meant, not its value."""
+        pm = self.parent_map()
+        p = pm.get(i)
+        while p is not None and self.nodes[p]["k"] in ("ParenExpr",):
+            p = pm.get(p)
+        return p is not None and self.nodes[p]["k"] == "UnaryOperator" and self.nodes[p].get("op") == "&"
+
     # --- value terms -------------------------------------------------------
     def term(self, i):
         """Canonical value term of an expression: casts and wrappers are transparent; the
@@ -140,7 +290,7 @@ class Function:
                 return ("global", nd.get("qn"))
             if dk == "func":
                 return ("func", nd.get("fn"))
-            if "cv" in nd and not nd.get("lv_use"):
+            if "cv" in nd and not self._address_taken(i):
                 # a const local with a constant initialiser, read as a value: it *is* that constant
                 return ("const", int(nd["cv"]))
             return ("var", nd.get("n"), nd.get("d"))
@@ -442,6 +592,7 @@ class Facts:
                     tgt[fn.key] = fn
         self.inlined_into = {}
         self.renames = self._canonicalise_member_names()
+        self.renamed_functions = self._canonicalise_function_names()
         for fn in self.functions.values():
             self.by_qn.setdefault(fn.qn, []).append(fn)
         GETTERS.clear()
@@ -560,6 +711,81 @@ class Facts:
                                 e["init_field"] = renames[(fn.cls, e["init_field"])]
         return {"%s::%s" % k: v for k, v in renames.items()}
 
+    def _canonicalise_function_names(self):
+        """Reads purely renamed private / file-local helper functions under their frozen names (spec/names.json).
+
+        A helper counts as renamed only when no function of its frozen name is left, exactly one function in the same class
+        (or namespace) with the identical parameter types, return type and qualifiers carries a name the reviewed tree never
+        had, and exactly one frozen helper with that signature has vanished. Public functions are the interface and are never
+        matched. Everything else is left alone (the helper may have been inlined: see `fn`)."""
+        path = os.path.join(os.path.dirname(os.path.dirname(os.path.abspath(__file__))), "spec", "names.json")
+        try:
+            with open(path) as fh:
+                spec = json.load(fh)
+        except OSError:
+            return {}
+        frozen = spec.get("private_functions", {})
+        known = set(spec.get("function_names", []))
+        if not frozen:
+            return {}
+        def sig(scope, key, d):
+            return (scope, key[key.index("("):] if "(" in key else "", d.get("ret_ct"), bool(d.get("const")), bool(d.get("static")))
+        cur_qns = {fn.qn for fn in self.functions.values()}
+        gone = {}
+        for key, h in frozen.items():
+            if key in self.functions or h["qn"] in cur_qns:
+                continue
+            gone.setdefault(sig(h["scope"], key, h), []).append((key, h))
+        if not gone:
+            return {}
+        access = {}
+        for r in self.records.values():
+            for m in r["methods"]:
+                access[m["key"]] = m["access"]
+        new = {}
+        for fn in self.functions.values():
+            if not fn.file.startswith(self.repo) or fn.qn in known or fn.d.get("ctor") or fn.d.get("lambda") or fn.d.get("implicit"):
+                continue
+            if fn.cls and access.get(fn.key, fn.d.get("access")) == "public":
+                continue
+            if not fn.cls and fn.d.get("in_header", True):
+                continue
+            scope = fn.cls or fn.qn.rsplit("::", 1)[0]
+            new.setdefault(sig(scope, fn.key, fn.d), []).append(fn)
+        renames = {}
+        for sg, olds in gone.items():
+            news = new.get(sg, [])
+            if len(olds) != 1 or len(news) != 1:
+                continue
+            (okey, h), fn = olds[0], news[0]
+            renames[fn.key] = (okey, h["qn"], h["name"], fn.qn)
+        if not renames:
+            return {}
+        out = {}
+        for nkey, (okey, oqn, oname, nqn) in renames.items():
+            fn = self.functions.pop(nkey)
+            out[nqn] = oqn
+            fn.d["source_name"] = fn.name
+            fn.key = fn.d["key"] = okey
+            fn.qn = fn.d["qn"] = oqn
+            fn.name = fn.d["name"] = oname
+            self.functions[okey] = fn
+            for r in self.records.values():
+                for m in r["methods"]:
+                    if m["key"] == nkey:
+                        m["key"], m["name"] = okey, oname
+        for table in (self.functions, self.fixture_functions):
+            for fn in table.values():
+                for nd in fn.nodes:
+                    r = renames.get(nd.get("fn"))
+                    if r is not None:
+                        nd["fn"] = r[0]
+                        if "fq" in nd:
+                            nd["fq"] = r[1]
+                        if "fname" in nd:
+                            nd["fname"] = r[2]
+        return out
+
     def fn_or_host(self, qn, nparams, host_qn, host_nparams=None, host_pred=None):
         """A private helper the rules anchor on may have been inlined into its only caller: the helper if it exists,
         otherwise the caller (`host`) that now contains its statements. Returns (function, is_host)."""
@@ -661,7 +887,8 @@ class Facts:
         return {"units": len(self.units), "repo_units": self.meta["repo_units"], "functions": len(self.functions),
                 "records": len(self.records), "enums": len(self.enums), "constants": len(self.vars),
                 "cfg_blocks": nblocks, "call_sites": ncalls, "tree_key": self.meta["key"],
-                "members_read_under_frozen_names": self.renames, "helpers_read_in_their_caller": self.inlined_into}
+                "members_read_under_frozen_names": self.renames, "helpers_read_in_their_caller": self.inlined_into,
+                "helpers_read_under_frozen_names": self.renamed_functions}
 
 
 def dump_function(fn, out=None):
